@@ -943,7 +943,8 @@ func c19MixWord(r *Rand, cs *c19Case, mix *c19Mix) []c19Seg {
 	}
 	first := ""
 	for _, k := range mix.kids {
-		if c19SafeUnq(k[0]) && !strings.Contains(first, k[:1]) {
+		// letters and digits only: `-` `^` `!` in a bracket are C17's business (C17-bracket-dash)
+		if (k[0] >= 'a' && k[0] <= 'z' || k[0] >= 'A' && k[0] <= 'Z' || k[0] >= '0' && k[0] <= '9') && !strings.Contains(first, k[:1]) {
 			first += k[:1]
 		}
 	}
@@ -1302,6 +1303,7 @@ type c19Job struct {
 	answer string
 	fields []string
 	corpus bool
+	known  bool
 	excl   string
 	inside bool
 }
@@ -1315,6 +1317,7 @@ func c19(c *Ctx) {
 		"non-trivial = the word reached Config.glob (unquoted metacharacter) ; distinct by exact tokens"
 	debug := os.Getenv("C19_DEBUG") != ""
 	var jobs []c19Job
+	knownNext := false
 	emit := func(cs c19Case, corpus bool) {
 		w, ok := c19Word(&cs)
 		if !ok {
@@ -1361,7 +1364,7 @@ func c19(c *Ctx) {
 			}
 		}
 		c.Case(toks, fsys.calls > 0, tags...)
-		j := c19Job{cs: cs, src: src, toks: toks, answer: answer, fields: fields, corpus: corpus, inside: inside}
+		j := c19Job{cs: cs, src: src, toks: toks, answer: answer, fields: fields, corpus: corpus, known: corpus && knownNext, inside: inside}
 		j.excl = excl
 		if fsys.escaped && j.excl == "" {
 			j.excl = "above-root"
@@ -1391,11 +1394,19 @@ func c19(c *Ctx) {
 		jobs = append(jobs, j)
 	}
 	for _, l := range c.CorpusLines() {
+		// `known sh …`: witness of an open finding, always compared with bash (so that it is reported as
+		// KNOWN-FINDING); `sh …`: seed or replayed input, compared unless it lies in an exclusion region
 		f := strings.Fields(l)
-		if len(f) < 2 || f[0] != "sh" {
+		known := len(f) > 0 && f[0] == "known"
+		if known {
+			f = f[1:]
+		}
+		// a replay file may also carry op lines (`specfields …`, `fields …`, `bashspec …`): same tokens
+		if len(f) < 2 || (f[0] != "sh" && f[0] != "specfields" && f[0] != "fields" && f[0] != "bashspec") {
 			continue
 		}
 		if cs, ok := c19ParseTokens(f[1:]); ok {
+			knownNext = known
 			emit(cs, true)
 		}
 	}
@@ -1446,7 +1457,7 @@ func c19(c *Ctx) {
 		nb++
 		witness := "sh " + j.toks
 		if run.interp != run.bash {
-			if j.excl == "" || j.corpus {
+			if j.excl == "" || j.known {
 				c.Fail(witness, fmt.Sprintf("interp prints %q, bash prints %q; %s", c19Show(run.interp), c19Show(run.bash), c19Describe(j.cs, j.src)))
 				if debug {
 					fmt.Printf("MISMATCH interp=%q bash=%q mem=%q\n   %s\n   %s\n", c19Show(run.interp), c19Show(run.bash), j.answer, c19Describe(j.cs, j.src), witness)
@@ -1732,6 +1743,9 @@ func c19Excl(cs c19Case) string {
 					return "nullglob-bad-pattern"
 				}
 			}
+			if c19BracketDash(comp) {
+				return "c17-bracket-dash" // C17-bracket-dash: `[-A]` is rejected as an invalid range
+			}
 			if cs.opts&c19Dot == 0 && dotNames && c19LeadingDotRisk(comp, ext) {
 				return "leading-dot"
 			}
@@ -1985,4 +1999,39 @@ func (m *c19FS) lexists(pwd, path string) bool {
 	}
 	_, ok := n.kids[last]
 	return ok
+}
+
+// c19BracketDash: a bracket expression whose first or last element is an unescaped dash.
+func c19BracketDash(comp string) bool {
+	for i := 0; i < len(comp); i++ {
+		if comp[i] == '\\' {
+			i++
+			continue
+		}
+		if comp[i] != '[' {
+			continue
+		}
+		j := i + 1
+		if j < len(comp) && (comp[j] == '!' || comp[j] == '^') {
+			j++
+		}
+		start := j
+		if j < len(comp) && comp[j] == ']' {
+			j++
+		}
+		for j < len(comp) && comp[j] != ']' {
+			if comp[j] == '\\' {
+				j++
+			}
+			j++
+		}
+		if j >= len(comp) {
+			return false
+		}
+		if comp[start] == '-' || (j-1 > start && comp[j-1] == '-' && comp[j-2] != '\\') {
+			return true
+		}
+		i = j
+	}
+	return false
 }
